@@ -217,9 +217,12 @@ P["C02"]["runs"] += [loadedRun("VerifMemoStepLoaded", "memo", [0], T, "memo-step
 P["C02"]["bounds"] += "; thorough: the same on knowledge bases loaded back from their GRB image"
 P["C12"]["runs"] += [{"name": "tierc-equivalence-memo", "pkgdir": "zztier", "harness": TIERC_H, "entry": "VerifTierCEquiv", "args": ["memo"], "tiers": QT,
                       "templates": tfiles(TB_SETS["memo"]), "require_reach": ["tierC:equiv-loaded"], "compare_events": False,
-                      "bounds": "every rule of the 13 templates of set 'memo': instance of the stored vs. of the loaded vs. of the twice-loaded knowledge base on copies of the same symbolic facts (candidate flag and all resulting facts equal)"},
+                      "bounds": "every rule of the %d templates of set 'memo':" % len(TB_SETS["memo"]) + " instance of the stored vs. of the loaded vs. of the twice-loaded knowledge base on copies of the same symbolic facts (candidate flag and all resulting facts equal)"},
                      dict(loadedRun("VerifMemoStepLoaded", "memo", [0], T, "memo-step-loaded-filled"), extra_label_prefixes=["C01:", "C02:", "C12:load-succeeds"]),
                      dict(loadedRun("VerifTierBSetLoaded", "memo", [3, 0], T, "tierB-loaded-memo-k3"), extra_label_prefixes=["C01:", "C02:", "C12:load-succeeds"])]
+P["C12"]["runs"] += [{"name": "tierc-equivalence-%s" % sn, "pkgdir": "zztier", "harness": TIERC_H, "entry": "VerifTierCEquiv", "args": [sn], "tiers": tr,
+                      "templates": tfiles(TB_SETS[sn]), "require_reach": ["tierC:equiv-loaded"], "compare_events": False,
+                      "bounds": "the same equivalence on the generated family '%s'" % sn} for sn, tr in (("genq", Q), ("gen", T), ("control", T), ("values", T))]
 P["C12"]["bounds"] += "; behavioural equivalence: every rule of 13 templates evaluated and executed on symbolic facts in instances of the stored, loaded and twice-loaded knowledge base; thorough: bounded runs and the inductive memo step on loaded knowledge bases"
 P["C12"]["outside"] = "rule sets outside the template family; readers that return short reads without being at the end"
 P["C12"]["assumptions"] = TIERC_ASSUME + TIERB_ASSUME
@@ -372,7 +375,7 @@ P["C05"] = {
         "reference semantics (DESIGN Appendix C) generated by tools/gen_c05.py from the PUBLISHED precedence table: trees grouped by that table, printed with only the parentheses it requires; value = 64-bit Go arithmetic with int->float promotion, / = real quotient",
         "side conditions of the property: divisors non-zero, |operands| < 1000 (no overflow), no NaN"],
     "bounds": "every ordered pair of the 15 binary operators 'x op1 y op2 z' over every operand-kind triple (int/bool/float) that is well-typed (321 cases), 19 notation cases (parentheses overriding / redundant, comments, literal notations decimal/hex/octal/exponent/hex-float, keyword case, uint8 operand), 24 depth-3 trees, 5 negation forms; method-call argument order and variadics (template b_args); string == and + on concrete strings; each as an assignment to a typed sink and (bool) as a rule condition; operands symbolic",
-    "outside": "the lexer is not encoded: literal notations, whitespace and comments are exercised concretely, once each, not solver-quantified; built-in functions with symbolic STRING operands (strings and times are concrete in the built-in family), the remaining math wrappers (trigonometric, Gamma, Bessel ...); string contents; expression depth > 3; operand values beyond |v| < 1000",
+    "outside": "the lexer is not encoded: literal notations, whitespace and comments are exercised concretely, once each, not solver-quantified; built-in functions on symbolic strings longer than 3 bytes or non-ASCII, Trim / MatchString / Split on symbolic strings, time built-ins on symbolic times, the remaining math wrappers (trigonometric, Gamma, Bessel ...); string contents; expression depth > 3; operand values beyond |v| < 1000",
     "runs": [{"name": "c05-family", "pkgdir": "zztier", "harness": TIERC_H, "entry": "VerifC05All", "tiers": QT, "templates": ["c05_%d.grl" % t for t in range(13)],
               "require_reach": ["c05:case"], "witnesses": 12, "bounds": "the whole generated family (367 expressions): evaluated through Sink = <expr> and as a rule condition on symbolic operands"},
              tierB("values", 3, 0, QT, require_reach=["tierB:execute-returned", "tierB:args-fired"]),
@@ -380,7 +383,10 @@ P["C05"] = {
               "init": ["strconv", "unicode/utf8"], "require_reach": ["c18:quoted"], "extra_label_prefixes": ["C18:string-constant"], "quick": {"max_values": 300}, "thorough": {"max_values": 300},
               "bounds": "string literal decoding (unquoteString) of the quoted form of every 1-byte string"},
              {"name": "c05-builtins", "pkgdir": "zztier", "harness": TIERC_H, "entry": "VerifC05Builtin", "tiers": QT, "templates": ["c05b.grl"], "require_reach": ["c05:builtin-case"],
-              "bounds": "46 built-in / math / constant-function cases (Max, Min, Abs, rounding family, Sqrt, IsNaN, IsInf, string Len/Contains/HasPrefix/HasSuffix/Index/LastIndex/Count/Compare/ToUpper/ToLower/Repeat/Replace/Trim/In/MatchString, array and map Len, IsNil, IsZero, MakeTime/IsTimeBefore/IsTimeAfter/GetTime*/TimeFormat) against their Go result: float and int operands symbolic, strings and times concrete"}]}
+              "bounds": "46 built-in / math / constant-function cases (Max, Min, Abs, rounding family, Sqrt, IsNaN, IsInf, string Len/Contains/HasPrefix/HasSuffix/Index/LastIndex/Count/Compare/ToUpper/ToLower/Repeat/Replace/Trim/In/MatchString, array and map Len, IsNil, IsZero, MakeTime/IsTimeBefore/IsTimeAfter/GetTime*/TimeFormat) against their Go result: float and int operands symbolic, strings and times concrete"},
+             {"name": "c05-builtins-symbolic-string", "pkgdir": "zztier", "harness": TIERC_H, "entry": "VerifC05BuiltinSymStr", "tiers": QT, "templates": ["c05b.grl"], "require_reach": ["c05:builtin-symstr-case"],
+              "quick": {"args": [2]}, "thorough": {"args": [3]},
+              "bounds": "the 15 string cases of the built-in family with F.S a byte-array string of 2 (thorough 3) fully symbolic ASCII bytes; the strings package runs from its own SSA (bytealg.Count/Compare/IndexByte modelled by forking per byte)"}]}
 
 P["C04"]["runs"].append(tierB("json", 2, 0, T))
 # generated template family (tools/gen_tb.py, fixed seed): 40 random rule sets, each biased to one container addressed through
